@@ -126,11 +126,13 @@ class Ctx:
                 f.write("\n".join(inputs) + "\n")
             cmd += ["--in", inp]
         t0 = time.time()
-        for attempt in (1, 2):
+        for attempt in (1, 2, 3):
             p = subprocess.run(cmd, stdout=subprocess.PIPE, stderr=subprocess.STDOUT, text=True, timeout=timeout, env=GOENV)
-            if p.returncode == 3 and attempt == 1:
-                # the driver's own watchdog fired (no event for 300 s): a hang of the harness/environment, retried once
-                log("(G) driver %s hung (watchdog), retrying once:\n%s" % (name, p.stdout[-3000:]))
+            if p.returncode != 0 and attempt < 3:
+                # exit 3: the driver's own watchdog fired (no event for 300 s); exit 2: the driver gave up on an error of
+                # the environment (a request the in-process cluster turned away or did not answer in time on a loaded
+                # machine, a port taken ...). Neither is a statement about the property: the driver is run again
+                log("(G) driver %s stopped with exit %d (attempt %d), running it again:\n%s" % (name, p.returncode, attempt, p.stdout[-1500:]))
                 continue
             break
         if p.returncode != 0:
@@ -365,6 +367,15 @@ def c15(ctx):
                         "store calls are released one at a time in the order of a TLC-generated schedule (gated store wrapper); every behaviour ends with a sequential epilogue in which the other nodes list the tables, delete the leased table and ask for the lease while it is held",
                         "batched races: 2-4 managers call LeaseTable at once while the metadata state machine is parked (verif hook) on a preceding proposal, so that their compare-and-set entries are applied in one batch"]
     q = ctx.quick
+    # UNBOUNDED: the inductive invariant of the protocol, for any set of nodes and any number of calls, checked by the
+    # TLA+ proof system; TLC checks the same invariant on Lease.tla's reachable states (IndInvL) and, in the thorough
+    # tier, that LeaseU is not vacuous (3 nodes, 7 store writes)
+    n, wall = tlaps(ctx.sc, "LeaseU")
+    ctx.notes["tlaps"] = dict(module="spec/proofs/LeaseU.tla", obligations_proved=n, wall_s=round(wall, 1),
+                              theorem="Spec => []AtMostOneHolder /\\ [][GrantSafe]_vars for every set of nodes")
+    log("(D) tlapm LeaseU: all %d obligations proved in %.1fs" % (n, wall))
+    if not q:
+        ctx.design("LeaseU", "MC_LeaseU.cfg")
     ctx.design("Lease", "MC_Lease_quick.cfg")
     beh = ctx.generate("Lease", "MC_Lease_gen.cfg", num=1500 if q else 30000, depth=16)
     if not ctx.gv("tlc-schedules", "Trace_Lease", ["lease"], inputs=beh):
